@@ -26,8 +26,15 @@ RULE = ("exhaustive: every non-empty directed graph (self-loops, antiparallel ed
         "outgoing_edges() / neighbours() and written once, then weights of existing edges are overwritten with add_edge "
         "(no new neighbour), new edges / nodes are added and the SAME object is the instance under test; or the first "
         "file is parsed into a new object, that object is written again (must be byte-identical), modified and then "
-        "tested. Per case: (h) edges()/nodes() of the instance under test = the model's add_node/add_edge semantics "
-        "applied to the whole call history (weights compared as repr tokens); (a) model-parse(impl.write(i)) = content "
+        "tested. OBJECT LIFETIME cases (2 of 7 random cases + tiny graphs): instance A is built, then a second instance "
+        "B with the same ordered id pairs and other weights, B's text is parsed header_only into a third object and "
+        "refused by the type gate as 'soc'; then A is written / re-read and judged against A's PAYLOAD, then B against "
+        "B's. Name dicts in discovery, shuffled or descending id order, on all or on a subset of the nodes; numpy.int64 "
+        "ids and numpy.float64 weights; double blanks, tabs, U+00A0 inside values, names starting with a blank / tab. "
+        "After every observation the sets returned by edges() / outgoing_edges() are modified in place and the "
+        "observation is repeated (purity / aliasing). Per case: (h) edges()/nodes()/alternatives_name of the instance "
+        "under test = what its PAYLOAD says: the model's add_node/add_edge semantics applied to the whole call history "
+        "(weights compared as repr tokens), never the instance's live accessors; (a) model-parse(impl.write(i)) = content "
         "of i, by readlines and by splitlines; (b) impl.parse_file and impl.parse_str of impl.write(i) = i: edges() with "
         "bitwise weights, outgoing_edges/neighbours of incident nodes, incident node set, names, num_alternatives, "
         "num_edges = |edges|, num_voters = num_alternatives; (c) impl.write(impl.parse(impl.write(i))) byte-identical; "
@@ -58,12 +65,16 @@ ASSUMPTIONS = ["node ids are Python ints of either sign (model: Z), written by s
                "is keyed by the NON-NEGATIVE nodes only: the name pattern (\\d+) cannot match a signed id, so a name on a "
                "negative id is outside the reading of 'well-formed instance'",
                "weights are finite Python floats (nan/inf excluded by the quantifier: 'any finite float value')",
-               "metadata values and alternative names contain no \\n / \\r and str.strip() is the identity on them; the empty "
-               "name is included.  In ~90 % of the cases they contain none of the 10 str.splitlines boundaries (the wf "
-               "predicate of the theorems: wf_field = no_break) and are checked through parse_file, get_parsed_instance AND "
-               "parse_str; in ~10 % a value has \\x0b \\x0c \\x1c \\x1d \\x1e \\x85 U+2028 U+2029 strictly inside: these lie "
-               "OUTSIDE the theorems' wf predicate and are correspondence-only, judged against the model's readlines path "
-               "(parse_file / get_parsed_instance; parse_str is not claimed for them)",
+               "metadata values and alternative names contain no \\n / \\r and str.strip() is the identity on them "
+               "(wf_field_rl, the hypothesis of C09_roundtrip / C09_idempotent / C09_header_only); the empty name, '#', ':', "
+               "',' and whole fake header / edge lines as values are included.  In ~90 % of the cases they also contain "
+               "none of the other eight str.splitlines boundaries and are checked through parse_file, "
+               "get_parsed_instance AND parse_str (C09_roundtrip_str needs the stronger wf_field); in ~10 % a value has "
+               "\\x0b \\x0c \\x1c \\x1d \\x1e \\x85 U+2028 U+2029 strictly inside: still inside the hypothesis of the file-path "
+               "theorems, checked through parse_file / get_parsed_instance only (parse_str is not claimed for them)",
+               "excluded classes (each with a _refuted witness in Properties/C09.v, run on the implementation as "
+               "'excluded class ...'): \\n or \\r inside a value, outer whitespace of a value, num_edges != number of "
+               "edges, no edge, a name on a negative node id",
                "well-formed matching instance: num_edges = number of stored edges, alternatives_name keyed by the "
                "non-negative nodes, num_alternatives = number of nodes, data_type 'wmd', at least one edge"]
 TIMEOUT_S = 60.0
@@ -143,9 +154,17 @@ ALPHABET = list("abcXYZ019 _-.:#,{}()/\\'\"%&;") + ["\t"] + [chr(k) for k in (0x
                                                                               0x660, 0x200b, 0x3000)]
 
 
+# values that look like pieces of the file format: a written line must never be mis-classified (C09_lines_classified)
+TRICKY = ["#", ":", "# NUMBER EDGES: 99", "# NUMBER ALTERNATIVES: 7", "# ALTERNATIVE NAME 1: zz", "# DATA TYPE: soc",
+          "# NUMBER VOTERS: 3", "1, 2, 0.5", "-2, 1, 9", "# FILE NAME: x", ": ,# {", "#1, 2, 3", "1,2", ",", "# TITLE:",
+          "x # y : z", "3: a", "# ALTERNATIVE NAME 2:", "NUMBER EDGES: 5", "#\t# NUMBER EDGES: 1"]
+
+
 def rand_text(rng, allow_empty=True, maxlen=12):
     if allow_empty and rng.random() < 0.12:
         return ""
+    if rng.random() < 0.08:
+        return rng.choice(TRICKY)
     for _ in range(50):
         s = "".join(rng.choice(ALPHABET) for _ in range(rng.randint(1, maxlen)))
         if s == s.strip() and not (set(s) & LINE_BOUNDARIES) and s:
@@ -174,20 +193,46 @@ def has_inner_break(payload):
 
 
 # ------------------------------------------------------------------------------------------------ generation
-def mk_case(meta, nv, alts, ops, ops2=(), mode=0, **tags):
+F_SPARSE, F_NPID, F_NPW = 1, 2, 4      # payload flags: names on a subset of the nodes only; numpy.int64 ids; numpy.float64 weights
+
+
+def mk_case(meta, nv, alts, ops, ops2=(), mode=0, flags=0, **tags):
     """meta: 9 strings; nv: num_voters before writing; alts: [(id, name)]; ops: [0, n] | [1, n1, n2, bits].
     History cases: ops2 non-empty or mode = 1.  mode 0: the object built by ops is observed (edges, outgoing_edges,
     neighbours) and written once, then ops2 is applied to the SAME object, which is the instance under test.
     mode 1: the file written from ops is parsed into a new object, that object is written again, then modified by
-    ops2; the result is the instance under test."""
-    payload = [[proto.text(s) for s in meta], nv, [[a, proto.text(nm)] for a, nm in alts], list(ops), list(ops2), mode]
+    ops2; the result is the instance under test.
+    mode 2 (object lifetime): instance A is built from ops, then a second instance B from ops2 (same ids, other weights),
+    B's text is parsed header_only into a third object and offered to the type gate as 'soc'; THEN A is written and
+    tested against its payload, then B."""
+    payload = [[proto.text(s) for s in meta], nv, [[a, proto.text(nm)] for a, nm in alts], list(ops), list(ops2), mode,
+               flags]
     return case("c09.roundtrip", payload, **tags)
 
 
 def unpack(payload):
+    """-> meta, nv, alts, ops, ops2, mode  (the flags are read with flags_of)"""
     if len(payload) == 4:
         return list(payload) + [[], 0]
-    return payload
+    return list(payload[:6])
+
+
+def flags_of(payload):
+    return payload[6] if len(payload) > 6 else 0
+
+
+def expected_names(payload, nodes):
+    """alternatives_name of the instance under test as the PAYLOAD defines it (see bookkeeping), for its node set"""
+    alts, fl = payload[2], flags_of(payload)
+    names = {}
+    for a, nm in alts:
+        if a in nodes and a not in names:
+            names[a] = proto.untext(nm)
+    if not fl & F_SPARSE:
+        for n in nodes:
+            if n >= 0 and n not in names:
+                names[n] = "Alternative %d" % n
+    return sorted([a, nm] for a, nm in names.items())
 
 
 def default_meta(rng=None):
@@ -301,11 +346,43 @@ def generate(tier, seed):
                     stored.append((a, b))
                 else:
                     ops2.append([0, rng.randint(lo, hi + 7)])
+        elif i % 7 in (2, 5):                                         # object lifetime: a sibling instance B
+            mode = 2
+            for o in ops:
+                if o[0] == 1 and rng.random() < 0.85:                 # same ordered id pair, another weight
+                    ops2.append([1, o[1], o[2], rand_weight_bits(rng)])
+                elif o[0] == 0 and rng.random() < 0.5:
+                    ops2.append(o)
+            if not any(o[0] == 1 for o in ops2):
+                e = next(o for o in ops if o[0] == 1)
+                ops2.append([1, e[1], e[2], rand_weight_bits(rng)])
+            for _ in range(rng.randint(0, 2)):
+                ops2.append([1, rng.choice(ids), rng.choice(ids), rand_weight_bits(rng)])
+            rng.shuffle(ops2)
+        flags = 0
+        if i % 5 == 3:
+            flags |= F_SPARSE
+        if i % 13 == 6 and all(abs(n) < 2 ** 62 for n in nodes_of_ops(ops + ops2)):
+            flags |= F_NPID
+        if i % 13 in (7, 6):
+            flags |= F_NPW
         nodes = nodes_of_ops(ops + ops2)
         named = [n for n in nodes if n >= 0]
-        if rng.random() < 0.5:
+        style = rng.random()                                          # order of the name dict: discovery / shuffled / descending
+        if style < 0.45:
             rng.shuffle(named)
+        elif style < 0.6:
+            named.sort(reverse=True)
+        if flags & F_SPARSE and len(named) > 1:
+            named = rng.sample(named, rng.randint(1, len(named) - 1))
         alts = [(n, rand_text(rng) if rng.random() < 0.7 else "Alternative %d" % n) for n in named]
+        # whitespace inside values; names that START with a blank / tab after the canonical ": " (kept by the name pattern)
+        for j in range(len(alts)):
+            r = rng.random()
+            if r < 0.05:
+                alts[j] = (alts[j][0], rng.choice([" ", "\t", "  ", "\xa0", " \t"]) + rand_text(rng, allow_empty=False))
+            elif r < 0.12:
+                alts[j] = (alts[j][0], rng.choice(["a  b", "a\tb", "a\xa0b", "x \t y", "St  Mary", "a \u3000 b", "t\t\tt"]))
         meta = default_meta(rng)
         if i % 10 in (4, 7) or (i % 10 == 1 and tier != "quick"):     # line-boundary characters INSIDE values (parse_file only)
             where = rng.random()
@@ -315,7 +392,13 @@ def generate(tier, seed):
             if where >= 0.4 or not alts:
                 for j in rng.sample([0, 1, 2, 4, 5, 6, 7, 8], rng.randint(1, 3)):
                     meta[j] = rand_text_lb(rng)
-        out.append(mk_case(meta, rng.choice([0, len(nodes), rng.randint(0, 99)]), alts, ops, ops2, mode, rnd=1))
+        if rng.random() < 0.15:
+            meta[rng.choice([1, 2, 4, 5])] = rng.choice(["a  b", "a\tb", "a\xa0b", "x \t y", "two  blanks", "t\t\tt"])
+        out.append(mk_case(meta, rng.choice([0, len(nodes), rng.randint(0, 99)]), alts, ops, ops2, mode, flags, rnd=1))
+    for j in range(6):                                                # object lifetime on tiny graphs
+        opsa = [[1, 1, 2, bits_of_f(0.5)], [1, 2, 1, bits_of_f(-1e16)], [1, 2, 2, bits_of_f(0.1)]][: 1 + j % 3]
+        opsb = [[1, o[1], o[2], bits_of_f(7.25 + j)] for o in opsa] + ([[1, 3, 1, bits_of_f(1 / 3)]] if j % 2 else [])
+        out.append(mk_case(default_meta(), 0, [(2, "b"), (1, "a"), (3, "c")], opsa, opsb, 2, lifetime=1))
     for j, ch in enumerate(INNER_BREAKS):
         meta = default_meta()
         if j % 2:
@@ -323,6 +406,7 @@ def generate(tier, seed):
         out.append(mk_case(meta, 0, [(1, "St Mary" + ch + "(annex)"), (2, "b")],
                            [[1, 1, 2, bits_of_f(0.5)], [1, 2, 1, bits_of_f(-1e16)]], mode=j % 2, lb=1))
     out.extend(fidelity_cases(rng, 150 if tier == "quick" else 1500))
+    out.extend(excluded_cases())
     # ---- small history cases: every edge of a small graph overwritten after the first write
     for k in (1, 2, 3):
         pairs = [(a, b) for a in range(1, k + 1) for b in range(1, k + 1)]
@@ -396,6 +480,95 @@ def fidelity_cases(rng, n):
     return out
 
 
+# ------------------------------------------------------------------------------------------------ excluded classes
+# The witnesses of Properties/C09.v (C09_*_refuted, C09_needs_an_edge) on the implementation: instances OUTSIDE the
+# hypothesis wf_core_rl of the theorems, on which the round trip really fails.  Recorded in the distribution
+# ("excluded class ..."); never a violation (an implementation that copes better with them breaks no property).
+def excluded_cases():
+    base_meta = ["ex.wmd", "A title, with: separators # {}", "", "wmd", "synthetic", "", "a.wmd,b.wmd", "2024-01-01",
+                 "2024-01-02"]
+    edges = [[-2, -2, bits_of_f(0.5)], [1, -2, bits_of_f(7.0)], [-2, 1, bits_of_f(1e21)]]
+    names = [[1, ""], [3, "c"]]
+
+    def mk(kind, meta=None, nm=None, es=None, ne=-1):
+        m = list(base_meta if meta is None else meta)
+        return case("c09.excluded", [proto.text(kind), [proto.text(x) for x in m],
+                                     [[a, proto.text(t)] for a, t in (names if nm is None else nm)],
+                                     edges if es is None else es, ne], excluded=1)
+
+    def title(t):
+        m = list(base_meta)
+        m[1] = t
+        return m
+    return [mk("newline inside a value (C09_newline_refuted)", meta=title("a\nb")),
+            mk("carriage return inside a value (C09_cr_refuted)", meta=title("a\rb")),
+            mk("newline inside a name (C09_name_newline_refuted)", nm=[[1, "x\ny"], [3, "c"]]),
+            mk("newline inside a value, rest looks like a header line (C09_newline_silent_refuted)", meta=title("a\n# b")),
+            mk("leading blank of a value (C09_outer_space_refuted)", meta=title(" a")),
+            mk("trailing form feed of a name (C09_name_trailing_ff_refuted)", nm=[[1, "x\x0c"], [3, "c"]]),
+            mk("num_edges is not the number of edges (C09_wrong_num_edges_refuted)", ne=5),
+            mk("no edge (C09_needs_an_edge)", es=[]),
+            mk("name on a negative node id (not expressible in the model: keys of alternatives_name are N)",
+               nm=[[-2, "x"], [1, "y"]])]
+
+
+def impl_excluded(c):
+    from preflibtools.instances import MatchingInstance
+    kind, meta, names, edges, ne = c["payload"]
+    inst = MatchingInstance()
+    for n in (1, -2, 3):
+        inst.add_node(n)
+    for a, b, w in edges:
+        inst.add_edge(a, b, f_of_bits(w))
+    for f, v in zip(META_FIELDS, meta):
+        setattr(inst, f, proto.untext(v))
+    inst.alternatives_name = {a: proto.untext(t) for a, t in names}
+    inst.num_alternatives = len(inst.node_mapping)
+    inst.num_edges = ne if ne >= 0 else sum(len(x) for x in inst.node_mapping.values())
+    paths = [_scratch(), _scratch()]
+    try:
+        inst.write(paths[0])
+        t1 = _read_raw(paths[0])
+        b = observe(inst)
+        res = {"excluded": 1, "inst": model_payload(inst) if all(a >= 0 for a, _ in names) else None, "before": b}
+        r, inst2 = _guard_obs(_parse_file, paths[0])
+        res["file"] = r
+        if inst2 is not None:
+            inst2.write(paths[1])
+            res["same_bytes"] = _read_raw(paths[1]) == t1
+        return res
+    finally:
+        for p in paths:
+            try:
+                os.remove(p)
+            except OSError:
+                pass
+
+
+def excluded_verdict(c, r, mres):
+    """(fails on the implementation?, agrees with the model?)"""
+    b, f = r["before"], r["file"]
+    if "err" in f:
+        impl_out = ("err", f["err"][0])
+    else:
+        o = f["ok"]
+        same = (o["edges"] == b["edges"] and o["names"] == b["names"] and o["meta"] == b["meta"]
+                and o["num_edges"] == b["num_edges"] and o["num_alternatives"] == b["num_alternatives"] and r["same_bytes"])
+        impl_out = ("ok", same, o["meta"], o["names"], o["num_edges"], r["same_bytes"])
+    fails = impl_out[0] == "err" or not impl_out[1]
+    if not mres:
+        return fails, None
+    rt, t1, t2 = mres[0]
+    if rt[0] != 0:
+        model_out = ("err", rt[1])
+    else:
+        mc = model_content(rt[1])
+        model_out = ("ok", None, mc["meta"], mc["names"], mc["num_edges"], t1 == t2)
+    agree = (impl_out[0] == model_out[0] == "err" and impl_out[1] == model_out[1]) or \
+            (impl_out[0] == model_out[0] == "ok" and impl_out[2:] == model_out[2:])
+    return fails, agree
+
+
 # ------------------------------------------------------------------------------------------------ implementation side
 _counter = [0]
 
@@ -407,24 +580,44 @@ def _scratch(ext=".wmd"):
     return os.path.join(d, "c09_%d_%d%s" % (os.getpid(), _counter[0], ext))
 
 
-def apply_ops(inst, ops):
+def apply_ops(inst, ops, flags=0):
+    if flags & (F_NPID | F_NPW):
+        import numpy as np
+    nid = (lambda n: np.int64(n)) if flags & F_NPID else (lambda n: n)
+    wt = (lambda w: np.float64(w)) if flags & F_NPW else (lambda w: w)
     for o in ops:
         if o[0] == 0:
-            inst.add_node(o[1])
+            inst.add_node(nid(o[1]))
         else:
-            inst.add_edge(o[1], o[2], f_of_bits(o[3]))
+            inst.add_edge(nid(o[1]), nid(o[2]), wt(f_of_bits(o[3])))
 
 
-def bookkeeping(inst, alts, nv):
+def poison_views(inst):
+    """lesson 'aliasing of results': damage what the accessors returned; the instance must not notice.
+    (neighbours() returns the internal set on the unchanged tree, nodes() a dict view: both are left alone.)"""
+    junk = 10 ** 9 + 7
+    e = inst.edges()
+    if isinstance(e, set):
+        e.add((junk, junk, 1.5))
+        e.clear()
+    for n in list(inst.nodes()):
+        oe = inst.outgoing_edges(n)
+        if isinstance(oe, set):
+            oe.add((n, junk, 2.5))
+            oe.clear()
+    str(inst)
+
+
+def bookkeeping(inst, alts, nv, flags=0):
     """the redundant fields of a well-formed instance: names keyed by the nodes, counts"""
     want = {a: proto.untext(nm) for a, nm in alts}
-    names = {a: nm for a, nm in inst.alternatives_name.items() if a in inst.node_mapping}
+    names = {int(a): nm for a, nm in inst.alternatives_name.items() if a in inst.node_mapping}
     for a, nm in alts:
         if a in inst.node_mapping and a not in names:
             names[a] = want[a]
     for n in inst.node_mapping:
-        if n not in names and n >= 0:
-            names[n] = "Alternative %d" % n
+        if n not in names and n >= 0 and not flags & F_SPARSE:
+            names[int(n)] = "Alternative %d" % n
     inst.alternatives_name = names
     inst.num_alternatives = len(inst.node_mapping)
     inst.num_voters = nv
@@ -435,12 +628,13 @@ def build_instance(payload, hist):
     """returns the instance under test; hist receives what was seen on the way (history cases)"""
     from preflibtools.instances import MatchingInstance
     meta, nv, alts, ops, ops2, mode = unpack(payload)
+    fl = flags_of(payload)
     inst = MatchingInstance()
-    apply_ops(inst, ops)
+    apply_ops(inst, ops, fl)
     for f, v in zip(META_FIELDS, meta):
         setattr(inst, f, proto.untext(v))
-    bookkeeping(inst, alts, nv)
-    if not ops2 and not mode:
+    bookkeeping(inst, alts, nv, fl)
+    if (not ops2 and not mode) or mode == 2:
         return inst
     # ---- history: use the object (the graph API and write) before it is modified
     hist["first"] = observe(inst)
@@ -456,23 +650,48 @@ def build_instance(payload, hist):
         hist["paths"].append(pa2)
         inst.write(pa2)
         hist["rewrite_same"] = (_read_raw(pa2) == text_a)
-    apply_ops(inst, ops2)
-    bookkeeping(inst, alts, nv)
+    str(inst)                                                         # a maintenance call in the middle of the history
+    apply_ops(inst, ops2, fl)
+    bookkeeping(inst, alts, nv, fl)
     return inst
 
 
+def build_sibling(payload, hist):
+    """mode 2: the second instance B (ops2), a header_only parse of B's text and a parse refused by the type gate"""
+    from preflibtools.instances import MatchingInstance
+    meta, nv, alts, ops, ops2, mode = unpack(payload)
+    fl = flags_of(payload)
+    b = MatchingInstance()
+    apply_ops(b, ops2, fl)
+    for f, v in zip(META_FIELDS, meta):
+        setattr(b, f, proto.untext(v))
+    bookkeeping(b, alts, nv, fl)
+    pb = _scratch()
+    hist["paths"].append(pb)
+    b.write(pb)
+    text_b = _read_raw(pb)
+    c = MatchingInstance()
+    c.parse_str(text_b, "wmd", header_only=True)
+    hist["sib_header_only_nodes"] = len(c.node_mapping)
+    hist["sib_header_only_weights"] = len(c.weights) if not c.node_mapping else -1
+    d = MatchingInstance()
+    hist["sib_gate"] = guarded(d.parse_str, text_b, "soc")[:2]
+    hist["sib_gate_nodes"] = len(d.node_mapping)
+    return b
+
+
 def observe(inst):
-    edges = sorted([a, b, bits_of_f(w)] for a, b, w in inst.edges())
+    edges = sorted([int(a), int(b), bits_of_f(float(w))] for a, b, w in inst.edges())
     inc = sorted({e[0] for e in edges} | {e[1] for e in edges})
     return {
         "edges": edges,
         "n_edge_tuples": len(inst.edges()),
-        "nodes": sorted(inst.nodes()),
+        "nodes": sorted(int(n) for n in inst.nodes()),
         "incident": inc,
-        "out": [[n, sorted([a, b, bits_of_f(w)] for a, b, w in inst.outgoing_edges(n))] for n in inc
+        "out": [[n, sorted([int(a), int(b), bits_of_f(float(w))] for a, b, w in inst.outgoing_edges(n))] for n in inc
                 if n in inst.node_mapping],
-        "nbr": [[n, sorted(inst.neighbours(n))] for n in inc if n in inst.node_mapping],
-        "names": sorted([a, nm] for a, nm in inst.alternatives_name.items()),
+        "nbr": [[n, sorted(int(x) for x in inst.neighbours(n))] for n in inc if n in inst.node_mapping],
+        "names": sorted([int(a), nm] for a, nm in inst.alternatives_name.items()),
         "num_alternatives": inst.num_alternatives,
         "num_voters": inst.num_voters,
         "num_edges": inst.num_edges,
@@ -484,8 +703,9 @@ def model_payload(inst):
     meta = [proto.text(getattr(inst, f)) for f in META_FIELDS]
     meta += [inst.num_alternatives, inst.num_voters,
              [[a, proto.text(nm)] for a, nm in inst.alternatives_name.items()]]
-    nodes = [[n, list(s)] for n, s in inst.node_mapping.items()]
-    weights = [[[a, b], proto.text("{}".format(w))] for (a, b), w in inst.weights.items()]
+    nodes = [[int(n), [int(x) for x in s]] for n, s in inst.node_mapping.items()]
+    weights = [[[int(a), int(b)], proto.text("{}".format(w))] for (a, b), w in inst.weights.items()
+               if a in inst.node_mapping and b in inst.node_mapping[a]]
     return [meta, inst.num_edges, nodes, weights]
 
 
@@ -566,14 +786,35 @@ def impl_fidelity(c):
 def impl(c):
     if c["op"] == "c09.parse":
         return impl_fidelity(c)
+    if c["op"] == "c09.excluded":
+        return impl_excluded(c)
     paths = []
     try:
         hist = {"paths": paths}
         pl = unpack(c["payload"])
-        inst = build_instance(pl, hist)
-        res = {"hyp": [m for o in pl[3] + pl[4] if o[0] == 1 for m in check_token(o[3])]}
+        inst = build_instance(c["payload"], hist)
+        sib = build_sibling(c["payload"], hist) if pl[5] == 2 else None
+        res = standard(inst, paths)
+        res["hyp"] = [m for o in pl[3] + pl[4] if o[0] == 1 for m in check_token(o[3])]
         res["history"] = {k: v for k, v in hist.items() if k != "paths"}
+        if sib is not None:
+            res["sib"] = standard(sib, paths)
+        return res
+    finally:
+        for p in paths:
+            try:
+                os.remove(p)
+            except OSError:
+                pass
+
+
+def standard(inst, paths):
+    """everything that is done with one instance under test"""
+    if True:
+        res = {}
         res["before"] = observe(inst)
+        poison_views(inst)
+        res["before2"] = observe(inst)
         p1 = _scratch()
         paths.append(p1)
         inst.write(p1)
@@ -587,6 +828,7 @@ def impl(c):
         res["str"], _ = _guard_obs(_parse_str, text1)
         # (c) second file
         if inst2 is not None:
+            poison_views(inst2)
             p2 = _scratch()
             paths.append(p2)
             r = guarded(inst2.write, p2)
@@ -606,22 +848,28 @@ def impl(c):
             res["d_file"], _ = _guard_obs(_parse_file, p3)
             res["d_str"], _ = _guard_obs(_parse_str, proto.untext(m[1]))
         return res
-    finally:
-        for p in paths:
-            try:
-                os.remove(p)
-            except OSError:
-                pass
 
 
 # ------------------------------------------------------------------------------------------------ model side
 def oracle_requests(c, r):
+    if c["op"] == "c09.excluded":
+        return [("c09.roundtrip", r["inst"])] if isinstance(r, dict) and r.get("inst") else []
     if c["op"] == "c09.parse":
         ac, ho, splitter, text = c["payload"]
         fname = r.get("fname", "") if isinstance(r, dict) else ""
         return [("c09.parse", [ac, ho, proto.text("wmd"), proto.text(fname), splitter, text])]
     if not isinstance(r, dict) or "text1" not in r:
         return []
+    pl = unpack(c["payload"])
+    if pl[5] == 2:
+        reqs = _requests_one(r, pl[3])
+        if isinstance(r.get("sib"), dict) and "text1" in r["sib"]:
+            reqs += _requests_one(r["sib"], pl[4])
+        return reqs
+    return _requests_one(r, pl[3] + pl[4])
+
+
+def _requests_one(r, ops):
     fname = proto.text("parsed.wmd")
     wmd = proto.text("wmd")
     return [("c09.parse", [0, 0, wmd, fname, 0, r["text1"]]),      # (a) readlines
@@ -629,7 +877,7 @@ def oracle_requests(c, r):
             ("c09.parse", [0, 1, wmd, fname, 0, r["text1"]]),      # (g)
             ("c09.roundtrip", r["inst"]),                          # the model's own round trip
             ("c09.build", [[0, o[1]] if o[0] == 0 else [1, o[1], o[2], proto.text(repr(f_of_bits(o[3])))]
-                           for o in unpack(c["payload"])[3] + unpack(c["payload"])[4]])]   # (h) the call history
+                           for o in ops])]                         # (h) the call history
 
 
 def model_content(mi):
@@ -720,21 +968,53 @@ def fidelity_verdict(c, r, mres):
 
 
 def judge(c, r, mres):
-    if c["op"] == "c09.parse":
-        return None                     # recorded by stats(), see fidelity_cases
+    if c["op"] in ("c09.parse", "c09.excluded"):
+        return None                     # recorded by stats(), see fidelity_cases / excluded_cases
     if not isinstance(r, dict) or "text1" not in r:
         return {"kind": "exception", "reason": "implementation side returned %r" % (r,)}
     if r["hyp"]:
         return {"kind": "mismatch", "reason": "(f) codec hypothesis fails: " + "; ".join(r["hyp"][:3]),
                 "theorem": "H_read_show / H_show_* (Section hypotheses of C09_roundtrip)"}
+    pl = unpack(c["payload"])
+    if pl[5] != 2:
+        return judge_one(c, r, mres, pl[5])
+    # object lifetime: A and B live in one process; each is judged against ITS OWN payload
+    h = r["history"]
+    if h.get("sib_header_only_nodes") or h.get("sib_gate_nodes"):
+        return "lifetime: a header_only parse / a parse refused by the type gate left nodes in the new object"
+    if h.get("sib_gate") != [1, proto.E_TYPE]:
+        return "lifetime: parse_str(text, 'soc') on a MatchingInstance returned %r, TypeError expected" % (h.get("sib_gate"),)
+    bad = judge_one(c, r, mres[:5], 0, "instance A (built first, written after B was built): ")
+    if bad:
+        return bad
+    if not isinstance(r.get("sib"), dict) or len(mres) < 10:
+        return {"kind": "exception", "reason": "second instance: implementation side returned %r" % (r.get("sib"),)}
+    rb = dict(r["sib"], history={})
+    return judge_one(c, rb, mres[5:10], 0, "instance B (built second): ")
+
+
+def _prefix(bad, pre):
+    if not bad or not pre:
+        return bad
+    if isinstance(bad, dict):
+        return dict(bad, reason=pre + str(bad.get("reason")))
+    return pre + bad
+
+
+def judge_one(c, r, mres, mode, pre=""):
+    return _prefix(_judge_one(c, r, mres, mode), pre)
+
+
+def _judge_one(c, r, mres, mode):
     b = r["before"]
     if not b["edges"]:
         return {"kind": "broken-correspondence", "reason": "generated instance has no edge"}
+    if r["before2"] != b:
+        return "purity / aliasing: after the results of edges() and outgoing_edges() were modified in place, the accessors answer differently"
     if r["before_after_write"] != dict(b, meta=r["before_after_write"]["meta"]):
         return "write() changed the instance"
-    # (h) the instance is what the history of add_node / add_edge calls says (model: add_edge overwrites the weight)
+    # (h) the instance is what the PAYLOAD (history of add_node / add_edge calls) says (model: add_edge overwrites)
     m_build = mres[4]
-    mode = unpack(c["payload"])[5]
     bw = {}
     for (a, b2), tok in m_build[1]:
         bw[(a, b2)] = proto.untext(tok)
@@ -745,6 +1025,9 @@ def judge(c, r, mres):
     b_nodes = sorted(n for n, _ in m_build[0])
     if (mode == 0 and b["nodes"] != b_nodes) or not set(b["incident"]) <= set(b["nodes"]) <= set(b_nodes):
         return "(h) nodes() of the instance after its call history: %r, expected %r" % (b["nodes"], b_nodes)
+    want_names = expected_names(c["payload"], set(b["nodes"]))
+    if b["names"] != want_names:
+        return "(h) alternatives_name of the instance %r, the payload says %r" % (b["names"][:6], want_names[:6])
     if r["history"].get("rewrite_same") is False:
         return "(c) history: write(parse(file A)) is not byte-identical to file A"
     if "parsed" in r["history"]:
@@ -825,7 +1108,7 @@ def judge(c, r, mres):
 
 
 def nontrivial(c, r, m):
-    if c["op"] == "c09.parse":
+    if c["op"] in ("c09.parse", "c09.excluded"):
         return False
     b = r["before"]
     return len(b["edges"]) >= 2 and any(f_of_bits(w) != int(f_of_bits(w)) for _, _, w in b["edges"]
@@ -837,6 +1120,11 @@ def _bucket(n):
 
 
 def stats(c, r, m):
+    if c["op"] == "c09.excluded":
+        kind = proto.untext(c["payload"][0])
+        fails, agree = excluded_verdict(c, r, m)
+        return ["excluded class: %s -- round trip fails on the implementation: %s; model behaves the same: %s"
+                % (kind, "yes" if fails else "NO", "n/a" if agree is None else ("yes" if agree else "NO"))]
     if c["op"] == "c09.parse":
         v = fidelity_verdict(c, r, m)
         kind = "raises" if "err" in r.get("fidelity", {}) else "parses"
@@ -844,7 +1132,7 @@ def stats(c, r, m):
                ([] if v == "agree" else ["parser fidelity DISAGREE: " + v[:160]])
     b = r["before"]
     pl = unpack(c["payload"])
-    ops = pl[3] + pl[4]
+    ops = pl[3] + (pl[4] if pl[5] != 2 else [])
     es = b["edges"]
     pairs = {(a, b2) for a, b2, _ in es}
     n_add = sum(1 for o in ops if o[0] == 1)
@@ -882,6 +1170,8 @@ def stats(c, r, m):
         labels.append("equal weights")
     if any(nm == "" for _, nm in b["names"]):
         labels.append("empty name")
+    if any(proto.untext(t) in TRICKY for t in pl[0]) or any(proto.untext(t) in TRICKY for _, t in pl[2]):
+        labels.append("a value that looks like a piece of the file format ('#', ':', fake header / edge line)")
     if has_inner_break(c["payload"]):
         labels.append("line-boundary character (not \\n, \\r) inside a name / metadata value: parse_file path only")
     reprs = [repr(w) for w in ws]
@@ -891,7 +1181,21 @@ def stats(c, r, m):
         labels.append("weight repr with e-")
     if any(abs(w) >= 1e16 and w == int(w) for w in ws if abs(w) < 1.8e308):
         labels.append("integer-valued weight >= 1e16")
-    if pl[4] or pl[5]:
+    fl = flags_of(c["payload"])
+    if fl & F_SPARSE:
+        labels.append("alternatives_name on a subset of the nodes only")
+    if fl & F_NPID:
+        labels.append("numpy.int64 node ids")
+    if fl & F_NPW:
+        labels.append("numpy.float64 weights")
+    nm_order = [a for a, _ in c["payload"][2]]
+    if nm_order != sorted(nm_order):
+        labels.append("alternatives_name not in ascending id order")
+    if any(t and proto.untext(t)[0] in " \t\xa0" for _, t in c["payload"][2]):
+        labels.append("a name that starts with a blank / tab (outside wf_field_rl; kept by the name pattern)")
+    if pl[5] == 2:
+        labels.append("lifetime: two instances with the same ids alive, A written after B was built; both judged against their payload")
+    elif pl[4] or pl[5]:
         labels.append("history: %s" % ("file parsed, re-written, modified, re-written" if pl[5] else
                                        "same object observed + written, modified, written again"))
         first = {(a, b2): w for a, b2, w in r["history"]["first"]["edges"]}
@@ -912,6 +1216,10 @@ def _calls(ops):
 
 
 def describe(c):
+    if c["op"] == "c09.excluded":
+        kind, meta, names, edges, ne = c["payload"]
+        return {"excluded_class": proto.untext(kind), "metadata": [proto.untext(t) for t in meta],
+                "names": [[a, proto.untext(t)] for a, t in names], "edges": edges, "num_edges_field": ne}
     if c["op"] == "c09.parse":
         ac, ho, splitter, text = c["payload"]
         return {"autocorrect": ac, "header_only": ho, "entry": "parse_file" if splitter == 0 else "parse_str",
@@ -919,7 +1227,15 @@ def describe(c):
     meta, nv, alts, ops, ops2, mode = unpack(c["payload"])
     d = {"metadata": dict(zip(META_FIELDS, (proto.untext(t) for t in meta))), "num_voters_before": nv,
          "alternatives_name": [[a, proto.untext(nm)] for a, nm in alts], "calls": _calls(ops)}
-    if ops2 or mode:
+    fl = flags_of(c["payload"])
+    d["flags"] = [t for bit, t in ((F_SPARSE, "names on a subset of the nodes"), (F_NPID, "numpy.int64 ids"),
+                                   (F_NPW, "numpy.float64 weights")) if fl & bit]
+    if mode == 2:
+        d["then"] = ("a SECOND MatchingInstance B is built in the same process with the calls below, B is written, its text "
+                     "parsed header_only and offered to the type gate as 'soc'; then A (calls above) is written, re-read and "
+                     "compared with its payload, then B")
+        d["calls_of_B"] = _calls(ops2)
+    elif ops2 or mode:
         d["then"] = ("edges()/outgoing_edges()/neighbours() called, instance written to file A; " +
                      ("file A parsed into a new object, that object written again; " if mode else "") +
                      "then on the same object:")
@@ -928,7 +1244,7 @@ def describe(c):
 
 
 def shrink(c):
-    if c["op"] == "c09.parse":
+    if c["op"] in ("c09.parse", "c09.excluded"):
         return
     meta, nv, alts, ops, h_ops, mode = unpack(c["payload"])
 
